@@ -278,7 +278,8 @@ DoDrained ==
   /\ NodeStep([t |-> "drained"], Reaction(Line))
   /\ calls' = CallsAfter(Line, calls)
   /\ LET fr == IF Has(Line, "frozen") THEN Range(Line.frozen) ELSE {} IN
-     Acc(Line, IF AllAnswered(fr) THEN {} ELSE IF fr = {} THEN {"C06"} ELSE {"C14"})
+     \* (an MPP timeout of 1_000_000 stands for "never": an incomplete set is then rightly held for ever)
+     Acc(Line, IF AllAnswered(fr) \/ cfg.mpp >= 1000000 THEN {} ELSE IF fr = {} THEN {"C06"} ELSE {"C14"})
   /\ UNCHANGED runinfo
 
 DoProbe ==
